@@ -402,6 +402,21 @@ REQUEST_SIDE = {
     "rekey": ("REKEY", {'uuid': 'unique_identifier', 'offset': 'offset', 'template_attribute': 'template_attribute'}),
     "check": ("CHECK", {'uuid': 'unique_identifier', 'usage_limits_count': 'usage_limits_count',
                         'lease_time': 'lease_time'}),
+    "derive_key": ("DERIVE_KEY", {'object_type': 'object_type', 'unique_identifiers': 'unique_identifiers',
+                                  'derivation_method': 'derivation_method',
+                                  'derivation_parameters': 'derivation_parameters',
+                                  'template_attribute': 'template_attribute'}),
+    "encrypt": ("ENCRYPT", {'data': 'data', 'unique_identifier': 'unique_identifier',
+                            'cryptographic_parameters': 'cryptographic_parameters',
+                            'iv_counter_nonce': 'iv_counter_nonce'}),
+    "decrypt": ("DECRYPT", {'data': 'data', 'unique_identifier': 'unique_identifier',
+                            'cryptographic_parameters': 'cryptographic_parameters',
+                            'iv_counter_nonce': 'iv_counter_nonce'}),
+    "signature_verify": ("SIGNATURE_VERIFY", {'message': 'data', 'signature': 'signature_data',
+                                              'unique_identifier': 'unique_identifier',
+                                              'cryptographic_parameters': 'cryptographic_parameters'}),
+    "sign": ("SIGN", {'data': 'data', 'unique_identifier': 'unique_identifier',
+                      'cryptographic_parameters': 'cryptographic_parameters'}),
 }
 DICT_OPS = [
     ("rekey", dict(uuid=('oneof', 'none', 'str'), offset=('oneof', 'none', 'int32nat'), template_attribute='none'),
@@ -414,13 +429,13 @@ DICT_OPS = [
     ("check", dict(uuid='none', usage_limits_count=('oneof', 'none', 'int32nat'),
                    cryptographic_usage_mask=('oneof', 'none', ('const', [])), lease_time='none'),
      {'unique_identifier': 'unique_identifier', 'usage_limits_count': 'usage_limits_count', 'lease_time': 'lease_time'}),
-    ("encrypt", dict(data='bytes', unique_identifier='none', cryptographic_parameters='none', iv_counter_nonce='none'),
+    ("encrypt", dict(data='bytes', unique_identifier=('oneof', 'none', 'str'), cryptographic_parameters='none', iv_counter_nonce='none'),
      {'unique_identifier': 'unique_identifier', 'data': 'data', 'iv_counter_nonce': 'iv_counter_nonce'}),
-    ("decrypt", dict(data='bytes', unique_identifier='none', cryptographic_parameters='none', iv_counter_nonce='none'),
+    ("decrypt", dict(data='bytes', unique_identifier=('oneof', 'none', 'str'), cryptographic_parameters='none', iv_counter_nonce='none'),
      {'unique_identifier': 'unique_identifier', 'data': 'data'}),
-    ("signature_verify", dict(message='bytes', signature='bytes', unique_identifier='none', cryptographic_parameters='none'),
+    ("signature_verify", dict(message='bytes', signature='bytes', unique_identifier=('oneof', 'none', 'str'), cryptographic_parameters='none'),
      {'unique_identifier': 'unique_identifier', 'validity_indicator': 'validity_indicator'}),
-    ("sign", dict(data='bytes', unique_identifier='none', cryptographic_parameters='none'),
+    ("sign", dict(data='bytes', unique_identifier=('oneof', 'none', 'str'), cryptographic_parameters='none'),
      {'unique_identifier': 'unique_identifier', 'signature': 'signature_data'}),
 ]
 _ALLF = sorted(set(v for _, _, f in DICT_OPS for v in f.values()) | {'cryptographic_usage_mask'})
